@@ -22,6 +22,7 @@ SNIPPETS = [
     ("fullA2", "See Foo v. Bar, 1 U. S. 10, 12 (1990) (en banc).", "FullCaseCitation", 0),
     ("fullA3", "Smith v. Jones, 1 U.S. 10 (1990).", "FullCaseCitation", 0),  # the same document as fullA under fullB's party names
     ("fullA0", "1 U.S. 10.", "FullCaseCitation", 0),  # the same document as fullA, cited bare (no party names)
+    ("fullA4", "Foo v. Bar, 1 U.S. (1 Dall.) 10 (1790).", "FullCaseCitation", 0),  # the same document written with its nominative parenthetical (other matched text)
     ("fullB", "Smith v. Jones, 1 U.S. 50 (1991).", "FullCaseCitation", 0),
     ("fullC", "Bar v. Baker, 2 F.2d 20 (1992).", "FullCaseCitation", 0),
     ("fullC3", "Kim v. Lee, 2 F.3d 20 (1995).", "FullCaseCitation", 0),  # same volume/page as fullC, sibling series
@@ -32,6 +33,9 @@ SNIPPETS = [
     ("lawR1", "Minn. R. 1400.", "FullLawCitation", 0),  # two rules of one compilation: differ in one group only
     ("lawR2", "Minn. R. 7050.", "FullLawCitation", 0),
     ("jour", "1 Minn. L. Rev. 1.", "FullJournalCitation", 0),
+    ("jour2", "1 Minn. L. Rev., 1.", "FullJournalCitation", 0),  # the same article, other surface form (comma)
+    ("lawU1", "1 U.S.C. § 1", "FullLawCitation", 0),  # the same section written with the sign and with 'sec.'
+    ("lawU2", "1 U.S.C. sec. 1", "FullLawCitation", 0),
     ("jourP", "1 Minn. L. Rev. ___.", "FullJournalCitation", 0),
     ("shortU", "See 2 F.2d at 25.", "ShortCaseCitation", 0),
     ("shortAmb", "See 1 U.S. at 12.", "ShortCaseCitation", 0),
@@ -53,7 +57,7 @@ SNIPPETS = [
 ]
 NAMES = [s[0] for s in SNIPPETS]
 CORE12 = ["fullA", "fullA0", "fullA2", "fullA3", "fullB", "fullC", "fullC3", "fullP", "fullQ", "fullU", "shortAmb", "shortAmbJones", "shortP", "shortPQux", "supraBar", "refJones", "idNoPin", "idValid", "unknown"]
-CLASS = {"fullA": "A", "fullA2": "A", "fullA0": "A", "fullA3": "A", "fullB": "B", "fullC": "C", "fullC3": "C3", "fullP": "P", "fullQ": "Q", "fullU": "U", "law": "law", "lawR1": "lawR1", "lawR2": "lawR2", "jour": "jour", "jourP": "jourP"}
+CLASS = {"fullA": "A", "fullA2": "A", "fullA0": "A", "fullA3": "A", "fullA4": "A", "jour2": "jour", "lawU1": "lawU", "lawU2": "lawU", "fullB": "B", "fullC": "C", "fullC3": "C3", "fullP": "P", "fullQ": "Q", "fullU": "U", "law": "law", "lawR1": "lawR1", "lawR2": "lawR2", "jour": "jour", "jourP": "jourP"}
 PLACEHOLDER_CLASSES = ("P", "Q", "U")  # every instance is its own resource: the canonical state counts them (capped at 2)
 K = {}
 
